@@ -33,14 +33,14 @@ Inductive call :=
 | CFstat (p : path)                 (* fstat(fd)                              os.ReadFile: f.Stat, only sizes the buffer *)
 | CRead (p : path) (off : nat)      (* read(fd, buf) at file offset off       os.ReadFile: read loop *)
 | CCloseR (p : path)                (* close(fd)                              os.ReadFile: defer f.Close *)
-| CStat (p : path)                  (* newfstatat(p, 0)       FIXED protocol only: os.Stat(filename) *)
+| CStat (p : path)                  (* newfstatat(p, 0)                       writeAtomically: os.Stat(filename) *)
 | CCreateTemp (p : path) (m : N)    (* openat(p, O_RDWR|O_CREAT|O_EXCL, 0600) os.CreateTemp *)
 | CWrite (p : path) (d : bytes)     (* write(fd, d)                           File.Write -> poll.FD.Write loop *)
-| CFchmod (p : path) (m : N)        (* fchmod(fd, m)          FIXED protocol only: tempFile.Chmod *)
+| CFchmod (p : path) (m : N)        (* fchmod(fd, m)                          writeAndClose: f.Chmod(perm) *)
 | CCloseW (p : path)                (* close(fd)                              tempFile.Close *)
 | CLstat (p : path)                 (* newfstatat(p, AT_SYMLINK_NOFOLLOW)     os.Rename: refuse a directory as newname *)
 | CRename (a b : path)              (* renameat(a, b)                         os.Rename *)
-| CUnlink (p : path)                (* unlinkat(p, 0)         FIXED protocol only: os.Remove(temp) *)
+| CUnlink (p : path)                (* unlinkat(p, 0)                         writeAtomically: os.Remove(temp) on error paths *)
 | CRmdir (p : path).                (* unlinkat(p, AT_REMOVEDIR)  os.Remove's second attempt after a failed unlink *)
 
 Inductive ret := ROk | RData (d : bytes) | RCount (n : nat) | RMode (m : N) | RErr (e : errno).
@@ -173,34 +173,20 @@ Fixpoint write_loop (fuel : nat) (tmp : path) (rest : bytes) (w : world) : step 
 
 Definition mode0600 : N := 384.
 
-(* main.go: writeAtomically, as it is: no chmod, and no removal of the temp
-   file on any error path *)
-Definition write_atomically_asis (out : bytes) (target tmp : path) : world -> step bool :=
-  r1 <- syscall (CCreateTemp tmp mode0600) ;;
-  if is_ok r1 then
-    okw <- write_loop (S (List.length out)) tmp out ;;
-    if okw : bool then
-      r3 <- syscall (CCloseW tmp) ;;
-      if is_ok r3 then
-        _ <- syscall (CLstat target) ;;             (* os.Rename; error ignored *)
-        r4 <- syscall (CRename tmp target) ;;
-        ret_ (is_ok r4)
-      else ret_ false
-    else ret_ false
-  else ret_ false.
-
-(* os.Remove(temp) of the fixed protocol: unlink, then rmdir if that failed; errors ignored *)
+(* os.Remove(tempFile.Name()): unlink, then rmdir if that failed; errors ignored *)
 Definition remove_temp (tmp : path) : world -> step bool :=
   r <- syscall (CUnlink tmp) ;;
   if is_ok r then ret_ false else (_ <- syscall (CRmdir tmp) ;; ret_ false).
 
+(* writeAndClose's error return (f.Close(), error ignored) followed by the caller's os.Remove *)
 Definition close_remove_temp (tmp : path) : world -> step bool :=
   _ <- syscall (CCloseW tmp) ;; remove_temp tmp.
 
-(* writeAtomically with proposed_fixes/C18-fmt-w-mode.diff applied: stat the
-   target first, fchmod the temp file to the target's permission bits before the
-   rename, remove the temp file on every error path *)
-Definition write_atomically_fixed (out : bytes) (target tmp : path) : world -> step bool :=
+(* main.go: writeAtomically + writeAndClose — THE PROTOCOL IN FORCE (since commit
+   c62275b): stat the target, create the temp file (0600), write, fchmod it to the
+   target's permission bits, close, rename; on every error after the creation the
+   temp file is removed *)
+Definition write_atomically (out : bytes) (target tmp : path) : world -> step bool :=
   r0 <- syscall (CStat target) ;;
   match r0 with
   | RMode m =>
@@ -222,9 +208,26 @@ Definition write_atomically_fixed (out : bytes) (target tmp : path) : world -> s
   | _ => ret_ false
   end.
 
-Inductive variant := AsIs | Fixed.
-Definition write_atomically (v : variant) :=
-  match v with AsIs => write_atomically_asis | Fixed => write_atomically_fixed end.
+(* REGRESSION MODEL: writeAtomically as it was before commit c62275b: no stat, no
+   chmod (the temp file's 0600 replaced the target's mode), and no removal of the
+   temp file on any error path.  Kept for the C18_…_before_fix lemmas. *)
+Definition write_atomically_before_fix (out : bytes) (target tmp : path) : world -> step bool :=
+  r1 <- syscall (CCreateTemp tmp mode0600) ;;
+  if is_ok r1 then
+    okw <- write_loop (S (List.length out)) tmp out ;;
+    if okw : bool then
+      r3 <- syscall (CCloseW tmp) ;;
+      if is_ok r3 then
+        _ <- syscall (CLstat target) ;;             (* os.Rename; error ignored *)
+        r4 <- syscall (CRename tmp target) ;;
+        ret_ (is_ok r4)
+      else ret_ false
+    else ret_ false
+  else ret_ false.
+
+Inductive variant := BeforeFix | Current.
+Definition write_atomically_of (v : variant) :=
+  match v with BeforeFix => write_atomically_before_fix | Current => write_atomically end.
 
 (* -w / -c / neither (kong makes -w and -c exclusive) *)
 Inductive cmd := CmdWrite | CmdCheck | CmdPlain.
@@ -266,7 +269,7 @@ Section Formatter.
         | CmdWrite =>
             match fmt_all src with
             | None => ret_ false
-            | Some out => write_atomically v out target tmp
+            | Some out => write_atomically_of v out target tmp
             end
         end
     end.
@@ -366,7 +369,7 @@ Fixpoint dec_parts (l : list sx) : list (bytes * option bytes) :=
 Definition fmtcmd_case (x : sx) : sx :=
   match x with
   | Lst [Sym v; Sym c; Str target; Str tmp; Sym dw; f; Lst ps; Str joined; Lst sched; Int kill] =>
-      let v := if str_eqb v (s_ "fixed") then Fixed else AsIs in
+      let v := if str_eqb v (s_ "before-fix") then BeforeFix else Current in
       let c := if str_eqb c (s_ "write") then CmdWrite else if str_eqb c (s_ "check") then CmdCheck else CmdPlain in
       let f0 := match f with
                 | Lst [Str d; Int m] => Some {| f_data := d; f_mode := Z.to_N m |}
